@@ -1367,7 +1367,9 @@ def get_rebind_dict(
   def _fill_rebind_dict(path, value, parent):
     new_value = select_fn(path, value, parent)
     if new_value is not value:
-      path_value_pairs[str(path)] = new_value
+      # NOTE: keyed by the path itself: its string form does not always parse
+      # back to the same keys (e.g. the keys 'a[', '' or True).
+      path_value_pairs[path] = new_value
       return TraverseAction.CONTINUE
     return TraverseAction.ENTER
 
